@@ -56,6 +56,35 @@ func run(args []string) error {
 			return err
 		}
 		return os.WriteFile(args[2], out, 0o644)
+	case "wa-rt":
+		// compile a Wa program and export the runtime allocator entry points and heap globals
+		// (exports are added to the text; no code is changed)
+		src, err := os.ReadFile(args[1])
+		if err != nil {
+			return err
+		}
+		_, wat, _, err := api.BuildFile(api.DefaultConfig(), args[1], src)
+		if err != nil {
+			return err
+		}
+		txt := string(wat)
+		end := strings.LastIndex(txt, ")")
+		if end < 0 || strings.TrimSpace(strings.TrimPrefix(strings.TrimSpace(txt[end+1:]), ";;module")) != "" {
+			return fmt.Errorf("wa-rt: cannot find the closing parenthesis of the module")
+		}
+		txt = txt[:end]
+		for _, f := range []string{"runtime.malloc", "runtime.free"} {
+			txt += fmt.Sprintf("(export \"vf:%s\" (func $%s))\n", f, f)
+		}
+		for _, g := range []string{"__heap_base", "__heap_ptr", "__heap_top", "__heap_l128_freep", "__heap_lfixed_cap"} {
+			txt += fmt.Sprintf("(export \"%s\" (global $%s))\n", g, g)
+		}
+		txt += ")\n"
+		out, err := watutil.Wat2Wasm(args[1]+".wat", []byte(txt))
+		if err != nil {
+			return err
+		}
+		return os.WriteFile(args[2], out, 0o644)
 	case "malloc":
 		n := func(i int) int32 { v, _ := strconv.Atoi(args[i]); return int32(v) }
 		h := malloc.NewHeap(&malloc.Config{MemoryPages: n(2), MemoryPagesMax: n(3), StackPtr: n(4), HeapBase: n(5), HeapLFixedCap: n(6)})
